@@ -752,3 +752,11 @@ func (x *Exec) pendHash() uint64 {
 	}
 	return h
 }
+
+// Yield is an explicit scheduling point of harness-side fakes (e.g. "the export is in
+// flight"): other threads may run here, at the price of a preemption.
+func Yield(label string, obj any) {
+	if x := cur; x != nil && !x.aborting {
+		x.Point(label, obj, func() bool { return true })
+	}
+}
